@@ -158,6 +158,16 @@ def run(ctx, rep):
             ms2 = [m for m, _ in iter_chain(srch[0])[1]]
             verdict_names = {('iter', 'rposition'): 'latest-first', ('iter', 'position'): 'earliest-first', ('iter', 'rev', 'position'): 'latest-first(rev)',
                              ('iter', 'enumerate', 'rev', 'find'): 'latest-first', ('iter', 'enumerate', 'filter', 'last'): 'latest-first'}.get(tuple(ms2))
+    if verdict_scopes is None:
+        # the walk over the scopes written as a search with a closure: `self.symbols.iter().rev().find_map(|scope| ..)`
+        for s_ in find_all(res['body'], lambda n: n.get('k') == 'mcall' and n['method'] in ('find_map', 'find', 'try_for_each', 'for_each', 'map')):
+            base_, ch_ = iter_chain(s_)
+            ms_ = [m for m, _ in ch_]
+            if 'symbols' in render(base_) and 'self' in render(base_) and 'flatten' not in ms_:
+                if ms_[:3] in (['iter', 'rev', s_['method']],) or ms_[:4] == ['iter', 'enumerate', 'rev', s_['method']]:
+                    verdict_scopes = 'reverse'
+                elif ms_[:2] == ['iter', s_['method']] and s_['method'] in ('find_map', 'find'):
+                    verdict_scopes = 'forward'
     if verdict_scopes is None and verdict_names in (None,):
         # one chain over the names of all open scopes laid end to end (`symbols.iter().flatten()`): outer scopes first, a scope's
         # names in declaration order.  The LAST match is the innermost, latest declaration; the first match the outermost, oldest
@@ -167,6 +177,7 @@ def run(ctx, rep):
             if 'flatten' not in ms_ or 'symbols' not in render(base_):
                 continue
             core_ = ms_[:ms_.index(s_['method']) + 1] if s_['method'] in ms_ else ms_
+            core_ = [m for m in core_ if m != 'map']      # a projection of the (slot, name) pair does not reorder anything
             if core_ in (['iter', 'flatten', 'enumerate', 'filter', 'last'], ['iter', 'flatten', 'enumerate', 'filter', 'next_back']):
                 verdict_scopes, verdict_names = 'reverse', 'latest-first'
             elif core_ in (['iter', 'flatten', 'position'], ['iter', 'flatten', 'enumerate', 'find'], ['iter', 'flatten', 'enumerate', 'filter', 'next']):
@@ -330,9 +341,13 @@ def check_visibility(ctx, rep, rule):
                 consulted.append('current')
             elif 'contexts' in a and (('index' in a and "('int', 0)" in a) or '::first' in a):
                 consulted.append('global')
+            elif 'contexts' in a and "'const_index': 0, 'from_end': False" in a:
+                consulted.append('global')        # `[global, ..]` / `[global]` of a slice pattern over the context stack
+            elif 'contexts' in a and "'const_index': 1, 'from_end': True" in a:
+                consulted.append('current')       # `[.., current]`
             else:
                 consulted.append('other:' + a[:80])
-    rep.ob(sorted(consulted) == ['current', 'global'], rule, sr.path, 'contexts consulted', 'exactly the current context and contexts[0]: %s' % consulted, sr.loc())
+    rep.ob(set(consulted) == {'current', 'global'}, rule, sr.path, 'contexts consulted', 'exactly the current context and contexts[0]: %s' % consulted, sr.loc())
 
 
 
@@ -455,6 +470,7 @@ def check_memo(ctx, rep, rule):
             continue
         cl = closure_of(f.path)
         muts = []
+        scope_level = False      # names or scopes inside a context change (as opposed to whole contexts coming and going)
         for q in cl:
             for b, t in by_path[q].calls():
                 n = callee_name(t)
@@ -465,6 +481,9 @@ def check_memo(ctx, rep, rule):
                         if d and d[0] == 'call' and callee_name(d[2]).endswith('Vec::<T>::new'):
                             continue
                     muts.append(n.split('::')[-1])
+                    rty = by_path[q].local_ty(op_base_local(t['args'][0])) if t['args'] and op_base_local(t['args'][0]) is not None else ''
+                    if 'Context' not in rty:
+                        scope_level = True
         if not muts:
             continue
         written = set()
@@ -472,7 +491,17 @@ def check_memo(ctx, rep, rule):
             for k, hows in field_uses(by_path[q]).items():
                 if 'write' in hows:
                     written.add(k)
-        ok = any(k in written for k in memo)
+        # state kept inside a Context travels with it: a method that only pushes / pops / truncates whole contexts has nothing to
+        # update there; state kept in the SymbolTable is affected by every change
+        groups = {}
+        for k in memo:
+            groups.setdefault(k[0], []).append(k)
+        ok = True
+        for owner, ks in groups.items():
+            if owner.endswith('Context') and not scope_level:
+                continue
+            if not any(k in written for k in ks):
+                ok = False
         rep.ob(ok, rule, f.path, 'keeps the lookup state in step',
                'this method changes the scope structure (%s) and the lookup also reads %s: it must update that state (writes seen here: %s)' % (
                    ', '.join(sorted(set(muts))), ', '.join('%s.%s' % (k[0].split('::')[-1], k[1]) for k in memo),
